@@ -59,30 +59,32 @@ type pendingSend struct {
 }
 
 type sched struct {
-	t2          bool
-	gs          []*G
-	cur         *G
-	now         *Term
-	timers      []*Timer
-	timerSeq    int
-	chanSeq     int
-	preemptions int
-	maxPreempt  int
-	firings     int
-	maxFirings  int
-	killing     bool
-	execDone    chan struct{}
-	wg          sync.WaitGroup
-	horizon     bool
-	deadlock    bool
-	abortErr    any
-	races       []*raceRec
-	shadow      map[*Value]*shadowCell
-	mapShadow   map[*MapV]*shadowCell
-	mutexes     map[*Value]*mutexState
-	wgroups     map[*Value]*wgState
-	onces       map[*Value]*onceState
-	raceSites   map[string]bool
+	t2             bool
+	gs             []*G
+	cur            *G
+	now            *Term
+	timers         []*Timer
+	timerSeq       int
+	chanSeq        int
+	preemptions    int
+	maxPreempt     int
+	firings        int
+	maxFirings     int
+	killing        bool
+	schedHighFirst bool
+	lastSwitch     string
+	execDone       chan struct{}
+	wg             sync.WaitGroup
+	horizon        bool
+	deadlock       bool
+	abortErr       any
+	races          []*raceRec
+	shadow         map[*Value]*shadowCell
+	mapShadow      map[*MapV]*shadowCell
+	mutexes        map[*Value]*mutexState
+	wgroups        map[*Value]*wgState
+	onces          map[*Value]*onceState
+	raceSites      map[string]bool
 }
 
 type mutexState struct {
@@ -196,6 +198,7 @@ func (m *Machine) tick(g *G) {
 }
 
 var vcDebug = os.Getenv("GOSYM_VCDEBUG") != ""
+var schedDebug = os.Getenv("GOSYM_SCHEDDEBUG") != ""
 
 func joinVC(dst *[]int, src []int) {
 	if vcDebug && len(src) > 3 && (len(*dst) <= 3 || src[3] > (*dst)[3]) && src[3] > 1 {
@@ -233,7 +236,24 @@ func (m *Machine) enabled(g *G) bool {
 // switchAway is called by a goroutine that cannot (or must not) continue: it picks the next goroutine,
 // hands over the baton and (unless finished) waits to be resumed.
 func (m *Machine) switchAway(cur *G) {
+	spins := 0
 	for {
+		spins++
+		if spins > 5000 {
+			desc := ""
+			for _, g := range m.gs {
+				if !g.done {
+					desc += fmt.Sprintf(" g%d(%s):%s", g.id, g.name, g.blockDesc)
+				}
+			}
+			td := ""
+			for _, t := range m.timers {
+				if t.active {
+					td += " " + t.desc
+				}
+			}
+			panic(unsupported{"scheduler livelock:" + desc + " timers:" + td})
+		}
 		var en []*G
 		for _, g := range m.gs {
 			if m.enabled(g) {
@@ -273,7 +293,11 @@ func (m *Machine) switchAway(cur *G) {
 		}
 		// delay-bounded scheduling: the default at a blocking point is the lowest-numbered enabled goroutine;
 		// choosing another one costs one unit of the same budget that preemptions draw from
-		next := en[0]
+		def := en[0]
+		if m.schedHighFirst {
+			def = en[len(en)-1] // alternative default policy: the most recently started enabled goroutine runs first
+		}
+		next := def
 		if len(en) > 1 && m.preemptions < m.maxPreempt {
 			opts := make([]int, len(en))
 			for i, g := range en {
@@ -281,13 +305,18 @@ func (m *Machine) switchAway(cur *G) {
 			}
 			id := m.decideLazy("sched", func() []int { return opts })
 			next = m.gs[id]
-			if next != en[0] {
+			if next != def {
 				m.preemptions++
 			}
 		}
 		if next == cur {
+			m.lastSwitch = fmt.Sprintf("self(en=%d,def=%d,done=%v)", len(en), def.id, cur.done)
 			cur.blockedOn = nil
 			return
+		}
+		m.lastSwitch = fmt.Sprintf("g%d->g%d", cur.id, next.id)
+		if schedDebug {
+			fmt.Printf("SWITCH g%d(%s,%s) -> g%d(%s) steps=%d\n", cur.id, cur.name, cur.blockDesc, next.id, next.name, m.steps)
 		}
 		m.cur = next
 		next.blockedOn = nil
@@ -307,12 +336,20 @@ func (m *Machine) switchAway(cur *G) {
 // blockUntil blocks the current goroutine until cond holds.
 func (m *Machine) blockUntil(desc string, cond func() bool) {
 	g := m.cur
+	// blockUntil may be entered while a scheduling condition of another goroutine is being evaluated in this
+	// goroutine's context (a harness condition that takes a lock): the outer blocked state must survive
+	prevCond, prevDesc := g.blockedOn, g.blockDesc
+	spins := 0
 	for !cond() {
+		spins++
+		if spins > 5000 {
+			panic(unsupported{"blockUntil livelock in g" + fmt.Sprint(g.id) + " " + g.name + " on " + desc + " lastSwitch=" + m.lastSwitch})
+		}
 		g.blockedOn = cond
 		g.blockDesc = desc
 		m.switchAway(g)
 	}
-	g.blockedOn = nil
+	g.blockedOn, g.blockDesc = prevCond, prevDesc
 }
 
 // schedPoint is a potential preemption point.
@@ -581,7 +618,8 @@ func (m *Machine) lazyTimer(c *ChanV) {
 	}
 	if m.branch(BvCmp("bvsle", t.deadline, m.now)) {
 		if t.period != nil {
-			t.deadline = BvBin("bvadd", t.deadline, t.period)
+			// a slow receiver: missed ticks are dropped, the next one comes a full period from now
+			t.deadline = BvBin("bvadd", m.now, t.period)
 		} else {
 			t.active = false
 		}
